@@ -57,7 +57,14 @@ class C07(Check):
                  'S-edges': ['edge', 'ev', 'one', 'derive', 'edge'], 'S-compile-between': ['nv', 'ev', 'one', 'all'],
                  'S-mixed': ['one', 'all', 'arr', 'sub', 'nv', 'ev', 'edge', 'copy', 'derive', 'adapt', 'adapt']}[stratum]
         derived = False
+        depth = 2 if spec.get('circuits') else 1
         opnames = sorted({o for (_, o) in net.inst})
+        if depth == 2 and stratum in ('S-edges', 'S-mixed', 'S-update_var') and rng.random() < 0.35:
+            # first op: a second circuit derived from T by adding a sub-circuit (update_template(circuits=...), not in
+            # place); the inherited sub-circuits must not be shared with T
+            src_c = rng.choice(list(spec['circuits']))
+            ops.append({'op': 'derive_circuits', 'copy_of': src_c, 'as': 'cz'})
+            derived = True
         for j in range(rng.randint(1, 10 if tier == 'thorough' else 6)):
             k = rng.choice(kinds)
             opn = rng.choice(opnames)
@@ -180,6 +187,7 @@ class C07(Check):
             bump('shared_nt')
         ref = models.RefNet(copy.deepcopy(spec))
         refs = {'T': ref}
+        flatD = [None]
         expected = []     # per observation: (label, RefNet)
         obsv.submit(snapshot(w.objs['T']), 'obs_both')
         expected.append(('construction', copy.deepcopy(ref), None))
@@ -194,7 +202,7 @@ class C07(Check):
                     res['violations'].append({'law': 'L-op', 'cls': 'loud', 'key': 'update_var',
                                               'detail': f'op #{k} update_var({json.dumps(op)[:200]}) raised {out.get("exc")}: {out.get("msg")}'})
                     break
-                self._apply_ref(rf, flat_nodes, spec, nv)
+                self._apply_ref(rf, flatD[0] if (on == 'D' and flatD[0]) else flat_nodes, spec, nv)
                 for s, t, a in op.get('edge_vars') or []:
                     self._set_edge(rf, s, t, a)
                     bump('edge_update')
@@ -220,6 +228,22 @@ class C07(Check):
                 for name_, rf_ in refs.items():
                     obsv.submit(snapshot(w.objs[name_]), 'obs_both')
                     expected.append((f'after op #{k} derive: circuit {name_}', copy.deepcopy(rf_), None))
+            elif op['op'] == 'derive_circuits':
+                specD = copy.deepcopy(spec)
+                specD['circuits'][op['as']] = copy.deepcopy(spec['circuits'][op['copy_of']])
+                try:
+                    newc = copy.deepcopy(w.objs['T'].circuits[op['copy_of']])
+                    w.objs['D'] = w.objs['T'].update_template(name='derived', circuits={op['as']: newc})
+                except Exception as e:
+                    res['violations'].append({'law': 'L-op', 'cls': 'loud', 'key': 'derive',
+                                              'detail': f'op #{k} update_template(circuits=...) raised {type(e).__name__}: {e}'})
+                    break
+                refs['D'] = models.RefNet(specD)
+                flatD[0] = models.flatten(specD)[0]
+                bump('derive_circuits')
+                for name_, rf_ in refs.items():
+                    obsv.submit(snapshot(w.objs[name_]), 'obs_both')
+                    expected.append((f'after op #{k} derive (circuits): circuit {name_}', copy.deepcopy(rf_), None))
             elif op['op'] == 'adapt':
                 # pyrates.utility.adapt_circuit returns an updated COPY; the circuit it was given (an object, or the
                 # template cached under a YAML path) must stay as it was
